@@ -100,6 +100,7 @@ def cls_of(s):
 
 def run(chk):
     chk.trusted_base = common.BASE_TRUST + [
+        "translate/units/vparse.py (own statement-by-statement renderer over clang's AST): version_parse (the 3-round loop unrolled) and model_version_probe (thread loop as a fold) are rendered into coq/Gen/VParse_gen.v on every run; strtok_r, strtol (errno, end pointer), strlen, strcpy, snprintf's length are hand-written in coq/Emu/VParsePre.v from the same functions coq/Emu/VersionDefs.v uses; glibc behaviour assumed: strtol without digits returns 0, leaves errno and sets end = start",
         "translate/units/meta.py + _stagec.py: check_version, is_thread_stream, loom_name, proc_stream_get_pid, load_appid, load_rank, thread_stream_get_tid, thread_load_metadata, should_enable and the head / the JSON part of one loop iteration of load_cpus are rendered into coq/Gen/Meta_gen.v on every run; parson's look-up API, strcmp and the conversions double<->int are hand-written in coq/Emu/MetaPre.v over the JSON model of coq/Rt/RtMetaDefs.v (numbers are integers; `(int) d` is the identity on |d| < 2^31); clang's AST and the Python printer are trusted",
         "translator translate/c2gallina.py (clang JSON AST -> Gallina) for version_is_compatible and ovni_version_check_str; validated each run against the compiled C on the same inputs",
         "hand model of version_parse (strtok_r/strtol per POSIX, C locale) validated against the compiled C",
@@ -109,7 +110,7 @@ def run(chk):
     ]
     chk.assumptions = ["strings handed to the C functions are NUL-terminated and contain no NUL",
                        "C locale isspace()"]
-    broken = common.translate(["version", "meta"])
+    broken = common.translate(["version", "meta", "vparse"])
     if broken:
         chk.proof_broken = {"kind": "translator", "messages": broken}
         chk.notes.append("translator refused the current source: " + "; ".join(broken))
